@@ -25,6 +25,7 @@ import TraitsVerif.Lemmas.PersistLive
 import TraitsVerif.Lemmas.PersistClone
 import TraitsVerif.Lemmas.CTabIndex
 import TraitsVerif.Generated.CopyChains
+import TraitsVerif.Lemmas.PersistSource
 namespace TraitsVerif.Props.C14
 open TraitsVerif TraitsVerif.Model.Persist TraitsVerif.Lemmas.Persist
 
@@ -301,6 +302,113 @@ example :
     let d : Decl := { name := "x", shape := .any, transient := true }
     let s : Obj := ⟨1, [⟨d, some (.leaf (.int 3))⟩]⟩
     (cloneTraits E0 s 2 none 1).copy.slots.map (fun sl => sl.val.isSome) = [false] := by
+  decide
+
+/-! ## The model is the source (`copy_traits`) -/
+
+open TraitsVerif.Model.PyP TraitsVerif.Lemmas.PersistSource in
+/-- **The loop of `copy_traits` is the source.**  `Generated/PersistProg.lean` holds the source text of
+`HasTraits.__getstate__`, `__reduce_ex__`, `__setstate__`, `copy_traits`, `clone_traits`, `__deepcopy__` (whole
+functions) and of the container `__getstate__` / `__setstate__` / `__deepcopy__`, translated on every run into the
+deep-embedded language `Model/PyPersist`.  For every leaf validator, every object without deferred (property /
+delegate) traits, every allocation state, every `copy` argument, `memo` given or not, and both ways of selecting
+the traits (`traits=None`: the copyable names, `all = false`; `traits="all"`: every name, `all = true`): running
+the interpreter over the main `for name in traits:` loop of the TRANSLATED `copy_traits` - `try:` / bare `except:`,
+the deferral test, the Event test, `getattr(other, name)`, the four-way `copy_type` chain with its `memo` split,
+`setattr(self, name, value)` - on a fresh instance of the same class gives exactly `cloneL`: the same new slots,
+the same source slots (defaults materialised by the reads), the same allocator, and never leaves the loop early. -/
+theorem C14_copy_is_source (E : Env) (oS oD : Nat) (arg : Option CopyMode) (all : Bool) (mv : Val)
+    (hmv : mv = .none ∨ mv = .memo) (memo : List (String × Val)) (src : List Slot)
+    (hnd : ∀ sl ∈ src, sl.decl.kind ≠ .property) (n : Nat) (tv : Val) (un : List String)
+    (x10 x11 x12 x13 x14 : Option Val) :
+    let p : Decl → Bool := if all then (fun _ => true) else Decl.copyable
+    let r := loopB E oS oD mainBody 10 p memo src (src.map fun sl => ⟨sl.decl, none⟩) n
+      (ctFrame tv mv arg un x10 x11 x12 x13 x14)
+    (forLoops copyTraitsFn.body).length = 2 ∧
+    r.1 = .next ∧ r.2.1 = (cloneL E oS oD arg all n src).2.1 ∧ r.2.2.1 = (cloneL E oS oD arg all n src).1 ∧
+      r.2.2.2.1 = (cloneL E oS oD arg all n src).2.2 := by
+  intro p r
+  have hp : ∀ d : Decl, (d.copyable || (all && d.kind != .event)) = (p d && d.kind != .event) := by
+    intro d
+    cases all <;> cases hk : d.kind <;> cases ht : d.transient <;> simp [p, Decl.copyable, hk, ht]
+  obtain ⟨_, _, hl⟩ := mainBody_unfold
+  obtain ⟨h1, h2, h3, h4, _⟩ := loop_spec E oS oD arg tv mv hmv all p hp memo src hnd n _ ⟨un, x10, x11, x12, x13, x14, rfl⟩
+  exact ⟨hl, h1, h2, h3, h4⟩
+
+/-- The hypotheses of `C14_copy_is_source` are satisfiable on a non-trivial object - `x = Any()` holding a plain
+list, no deferred trait - and the right-hand side is not trivial there: under `copy='deep'` the new object's value
+is a new list (identity 1, the source's is 0). -/
+example :
+    let d : Decl := { name := "x", shape := .any }
+    let src : List Slot := [⟨d, some (.node .lst 0 .plain [] [])⟩]
+    (∀ sl ∈ src, sl.decl.kind ≠ .property) ∧
+      (cloneL E0 1 2 (some .deep) false 1 src).1.flatMap slotIds = [1] ∧
+      (cloneL E0 1 2 (some .deep) false 1 src).2.1.flatMap slotIds = [0] := by
+  refine ⟨?_, by decide, by decide⟩
+  intro sl h
+  simp only [List.mem_singleton] at h
+  subst h
+  simp
+
+open TraitsVerif.Model.PyP TraitsVerif.Lemmas.PersistSource TraitsVerif.Generated.PersistProg in
+/-- **`__getstate__` (and `__reduce_ex__`) are the source.**  Interpreting the translated text of
+`HasTraits.__getstate__` - `trait_get(transient=is_none)`, the update with the `__dict__` entries of the
+explicitly non-transient delegates (none in the modelled classes), the ISerializable test (not implemented by
+the modelled classes; its body is never reached), `setdefault("__traits_version__", …)` - on any object, in any
+allocation state, returns exactly the state `getstateL` computes, marked with the version, and leaves the object
+as `getstateL` leaves it (defaults materialised by the reads); `__reduce_ex__` (any protocol) hands out that very
+state, obtained by calling the translated `__getstate__`. -/
+theorem C14_getstate_is_source (E : Env) (o oD n pr : Nat) (slots dst : List Slot) (memo : List (String × Val))
+    (log : List String) (vars : Frame) :
+    runMethod E o oD noHandler "__getstate__" (.obj false) [] [] [] ⟨slots, dst, n, vars, memo, log⟩ =
+      some (.ok (.state (getstateL E o n slots).1 true),
+        ⟨(getstateL E o n slots).2.1, dst, (getstateL E o n slots).2.2, vars, memo, log⟩) ∧
+    runMethod E o oD (progHandler E o oD hasTraitsProg noHandler) "__reduce_ex__" (.obj false) [.int pr] [] []
+        ⟨slots, dst, n, vars, memo, log⟩ =
+      some (.ok (.state (getstateL E o n slots).1 true),
+        ⟨(getstateL E o n slots).2.1, dst, (getstateL E o n slots).2.2, vars, memo, log⟩) :=
+  ⟨getstate_is_source E o oD n slots dst memo log vars, reduce_is_source E o oD n pr slots dst memo log vars⟩
+
+open TraitsVerif.Model.PyP TraitsVerif.Lemmas.PersistSource in
+/-- **`__setstate__` is the source.**  Interpreting the translated text of `HasTraits.__setstate__` on a new
+object with a state that carries the version mark (every state `__getstate__` returns does; the Traits-2 arm is
+then not taken): the slots become exactly what `setstateL` computes, and the methods called on the new object are,
+in this order, `_init_trait_listeners`, `_init_trait_observers`, `trait_set`, `_post_init_trait_listeners`,
+`_post_init_trait_observers`, `traits_init`, `_trait_set_inited`.  When an assignment raises, the exception leaves
+`__setstate__` after `trait_set`: the object is left unchanged and is never marked initialised. -/
+theorem C14_setstate_is_source (E : Env) (oS o' n : Nat) (src dst : List Slot) (xs : List (Option CVal))
+    (memo : List (String × Val)) (vars : Frame) :
+    runMethod E oS o' noHandler "__setstate__" (.obj true) [.state xs true] [] [] ⟨src, dst, n, vars, memo, []⟩ =
+      match setstateL E o' n dst xs with
+      | .error e => some (.error e, ⟨src, dst, n, vars, memo, setstateLog.take 3⟩)
+      | .ok (d', n') => some (.ok .none, ⟨src, d', n', vars, memo, setstateLog⟩) :=
+  setstate_is_source E oS o' n src dst xs memo vars
+
+open TraitsVerif.Model.PyP TraitsVerif.Lemmas.PersistSource TraitsVerif.Generated.PersistProg in
+/-- **`clone_traits` is the source** (whole function, with the translated `copy_traits` - whole function - called
+through it).  For every object without deferred traits, every `copy` argument, every allocation state:
+interpreting `obj.clone_traits(copy=arg)` returns the new object, whose slots, the source's slots and the
+allocator are exactly those of `cloneTraits`; the methods called on the new object are, in order, those of
+`cloneLog` (`copy_traits` between the two `_init…` and the two `_post_init…` calls, `_trait_set_inited` last) -
+without `copy_traits` when no trait is copyable (the `len(traits) > 0` guard of the F72 repair); and the memo
+holds `traits_copy_mode = arg` afterwards (what `nestedArg` reads). -/
+theorem C14_clone_is_source (E : Env) (s : Obj) (o' n : Nat) (arg : Option CopyMode)
+    (hnd : ∀ sl ∈ s.slots, sl.decl.kind ≠ .property) :
+    ∃ ts, runMethod E s.oid o' (progHandler E s.oid o' hasTraitsProg noHandler) "clone_traits" (.obj false) []
+        ["copy"] [argVal arg] ⟨s.slots, [], n, [], [], []⟩ = some (.ok (.obj true), ts) ∧
+      ts.dst = (cloneTraits E s o' arg n).copy.slots ∧ ts.src = (cloneTraits E s o' arg n).orig.slots ∧
+      ts.n = (cloneTraits E s o' arg n).next ∧
+      ts.log = (if (s.slots.filter (fun sl => sl.decl.copyable)).length = 0 then cloneLog.eraseIdx 2 else cloneLog) ∧
+      memoGet ts.memo "traits_copy_mode" = some (argVal arg) :=
+  clone_is_source E s o' n arg hnd
+
+/-- The two logs are the call sequences `copychains` reads (so `C14_restored_before_inited` speaks of the same
+runs), and the no-copyable-trait variant only lacks `copy_traits`. -/
+example :
+    TraitsVerif.Lemmas.PersistSource.cloneLog = Generated.CopyChains.cloneTraitsCalls ∧
+    TraitsVerif.Lemmas.PersistSource.setstateLog = Generated.CopyChains.setstateCalls.drop 1 ∧
+    TraitsVerif.Lemmas.PersistSource.cloneLog.eraseIdx 2 =
+      Generated.CopyChains.cloneTraitsCalls.filter (· ≠ "copy_traits") := by
   decide
 
 /-! ## Trait definition objects -/
